@@ -301,6 +301,16 @@ def ConfigurationToDict(cfg):
     return config
 
 
+def boolean_to_text(value):
+    # type: (Any) -> str
+    """Text of a boolean option: constants are spelled in lower-case, anything else (e.g. a reference to a variable,
+    whose name is case sensitive) is written verbatim"""
+    text = str(value)
+    if text.lower() in ('true', 'false', 'yes', 'no'):
+        return text.lower()
+    return text
+
+
 class Dosini(object):
     # VV: Making this a Class object enables us to load multiple packages and keep the record of the reported warnings
     _suppressed_warnings = set()
@@ -1847,9 +1857,9 @@ class Dosini(object):
                 'repeatRetries': lambda key, value: {key: str(value)},
                 'maxRestarts': lambda key, value: ({'max-restarts': str(value)} if value is not None else {}),
                 'replicate': lambda key, value: {key: str(value)},
-                'aggregate': lambda key, value: {key: str(value).lower()},
+                'aggregate': lambda key, value: {key: boolean_to_text(value)},
                 'repeatInterval': lambda key, value: {'repeat-interval': str(value)},
-                'isMigratable': lambda key, value: {key: str(value).lower()},
+                'isMigratable': lambda key, value: {key: boolean_to_text(value)},
             }
         )
 
@@ -1860,7 +1870,7 @@ class Dosini(object):
                 required={
                 },
                 optional={
-                    'disable': lambda key, value: {'optimizerDisable': str(value).lower()},
+                    'disable': lambda key, value: {'optimizerDisable': boolean_to_text(value)},
                     'exploitChance': lambda key, value: {'optimizerExploitChance': str(value)},
                     'exploitTarget': lambda key, value: {'optimizerExploitTarget': str(value)},
                     'exploitTargetLow': lambda key, value: {'optimizerExploitTargetLow': str(value)},
@@ -1874,8 +1884,8 @@ class Dosini(object):
                 comp['workflowAttributes'].get('memoization', {}).get('disable', {}),
                 required={},
                 optional={
-                    'strong': lambda key, value: {'memoization-disable-strong': str(value).lower()},
-                    'fuzzy': lambda key, value: {'memoization-disable-fuzzy': str(value).lower()},}))
+                    'strong': lambda key, value: {'memoization-disable-strong': boolean_to_text(value)},
+                    'fuzzy': lambda key, value: {'memoization-disable-fuzzy': boolean_to_text(value)},}))
         flat.update(
             cls._translate_dict_to_dict(
                 comp['workflowAttributes'].get('memoization', {}),
@@ -2061,7 +2071,7 @@ class Dosini(object):
 
         def bool_to_str(key, value):
             # type: (str, bool) -> Dict[str, str]
-            return {key: str(value).lower()}
+            return {key: boolean_to_text(value)}
 
         key = 'command'
 
